@@ -15,7 +15,7 @@ from .. import ref
 from ..lab import LFS, make_odb
 from ..world import World, digest_obj, stamp, tick
 
-C = {"c1": b"aaaa", "c2": b"bbbb", "c3": b"cc"}
+C = {"c1": b"aaaa", "c2": b"bbbb", "c3": b"cc", "big1": b"1" * (2**20 + 1), "big2": b"2" * (2**20 + 1)}
 FILES = ["f1", "f2"]
 US = 1000  # logical clock step: 1 microsecond, so that all mutations fall into the same second
 
@@ -33,6 +33,8 @@ def alphabet():
     ops += [("many",), ("build",), ("imd5",), ("update",)]
     # the previous index goes through its serialised form (as dvc keeps it between runs)
     ops += [("serial", "json"), ("serial", "db")]
+    # other algorithms sharing the same state: a sha256 hash of the file, and the file added to a sha256 store
+    ops += [("hash-sha256", "f1"), ("add-sha256", "f1")]
     # a user write that lands *during* a library call, between hashing and recording
     ops += [("build-midwrite", "f1"), ("hash-midwrite", "f1"), ("imd5-midwrite", "f1")]
     return ops
@@ -78,6 +80,10 @@ def run_history(hist, init):
             if init == "warm+link":
                 # the staged directory also holds a symlink to f1
                 os.symlink(paths["f1"], paths["ln"])
+            if init == "big":
+                # two files above the large-file threshold: staging hashes them in the pool
+                write(paths["f1"], C["big1"])
+                write(paths["f2"], C["big2"])
             if init in ("warm", "warm+link"):
                 write(paths["f1"], C["c1"])
                 hash_file(paths["f1"], LFS, "md5", state=state)
@@ -150,6 +156,36 @@ def run_history(hist, init):
                     if os.path.exists(p):
                         _m, hi = hash_file(p, LFS, "md5", state=state)
                         answer("hash_file", op[1], hi.value, i, op)
+                elif k == "hash-sha256":
+                    p = paths[op[1]]
+                    if os.path.exists(p):
+                        import hashlib
+
+                        _m, hi = hash_file(p, LFS, "sha256", state=state)
+                        answers += 1
+                        with open(p, "rb") as fh:
+                            want = hashlib.sha256(fh.read()).hexdigest()
+                        if hi.name != "sha256" or hi.value != want:
+                            viol.append(("wrong-algorithm-or-value-for-sha256-request",
+                                         f"{hi.name}:{hi.value} at step {i} of {hist} init={init}"))
+                elif k == "add-sha256":
+                    p = paths[op[1]]
+                    if os.path.exists(p):
+                        import hashlib
+
+                        with open(p, "rb") as fh:
+                            data = fh.read()
+                        odb2 = make_odb("local", w.p("odb-sha256"), state=state, hash_name="sha256")
+                        odb2.add(p, LFS, hashlib.sha256(data).hexdigest())
+                        op_ = odb2.oid_to_path(hashlib.sha256(data).hexdigest())
+                        _m, hi2 = state.get(op_, LFS)
+                        answers += 1
+                        if hi2 is not None and hi2.name == "md5" and hi2.value != ref.md5(data):
+                            viol.append(("stale-hash/object-of-another-algorithm-served-as-md5",
+                                         f"{hi2.value} at step {i} of {hist} init={init}"))
+                        _m, hi3 = hash_file(op_, LFS, "md5", state=state)
+                        if hi3.value != ref.md5(data):
+                            viol.append(("stale-hash/hash_file-of-stored-object", f"{hi3.value} at step {i} of {hist}"))
                 elif k == "sv":
                     p = paths[op[1]]
                     if os.path.exists(p):
@@ -434,6 +470,9 @@ def run(ctx):
             for b in (ops if depth >= 4 else [None]):
                 pre = [list(a)] + ([list(b)] if b else [])
                 cs.append({"part": "hist", "init": init, "prefix": pre, "depth": depth})
+    # two large files (the hashing pool): histories that start with a staging / hashing call
+    for a in (("build-midwrite", "f1"), ("build",), ("imd5-midwrite", "f1"), ("hash-midwrite", "f1"), ("many",)):
+        cs.append({"part": "hist", "init": "big", "prefix": [list(a)], "depth": depth})
     for n in (1, 2, 998, 999, 1000, 1001, 1999):
         cs.append({"part": "batch", "n": n})
     cs.append({"part": "forged"})
